@@ -733,6 +733,10 @@ def ldu(load_v, name):
            'nested operator calls whose operands are lambdas', floor=6)
   rules_fold.check(model, rep, 'FOLD')
 
+  rep.depends('C11', ['HYG-SUPPORT'],
+              'the setter assigns its targets through their own names: its parameter '
+              'must not shadow a name that occurs in a composite target',
+              site_filter=lambda site: 'setter-parameter' in site)
   rep.depends('C07', ['LV-TRANSFER', 'LV-CLOSURE', 'LV-BLOCK'],
               'nouts and the outputs-first order are computed from the LIVE_VARS_IN / '
               'LIVE_VARS_OUT annotations of the statement')
